@@ -201,6 +201,13 @@ where
     }
 }
 
+#[cfg(bma400_verif)]
+impl OrientChgConfig {
+    pub(crate) fn verif_visit(&mut self, f: &mut dyn FnMut(u8, u8) -> Option<u8>) {
+        verif_visit_fields!(self, f, orientch_config0: OrientChgConfig0, orientch_config1: OrientChgConfig1, orientch_config3: OrientChgConfig3, orientch_config4: OrientChgConfig4, orientch_config5: OrientChgConfig5, orientch_config6: OrientChgConfig6, orientch_config7: OrientChgConfig7, orientch_config8: OrientChgConfig8, orientch_config9: OrientChgConfig9);
+    }
+}
+
 #[cfg(test)]
 mod tests {
     use super::*;
